@@ -395,7 +395,7 @@ PROPS["C15"] = {
                    "root) unless the cycle saw a root change that exempts it; lifted to histories of any length in which "
                    "any cycle may be cut short anywhere (timestamp/snapshot/targets_protected_despite_crashes); from "
                    "every crash state of a successful cycle the same cycle succeeds again with the same view "
-                   "(crash_states_complete: the list of crash states misses none; crash_no_lockout, via Proofs/ClientRerun.lean: a step depends on the datastore only through the clock "
+                   "(crash_states_complete: the list of crash states misses none; crash_no_lockout and, for any later repository acceptable before and after, crash_no_lockout_any_repository; via Proofs/ClientRerun.lean: a step depends on the datastore only through the clock "
                    "sample and whether its own stored document blocks the result); the "
                    "truncate-then-write create of the original code is refuted by a concrete witness. Correspondence: the "
                    "datastore the real client leaves behind is one of the model's crash states, and both follow-up cycles "
@@ -405,15 +405,17 @@ PROPS["C15"] = {
     "level_text": "Kernel-checked invariant over every crash point of the cycle model and every history of interrupted cycles; "
                   "fault enumeration over every datastore system call of the real client (kill / ENOSPC / EIO).",
     "level_note": "Both halves are proved over the model: protection (crash_ts/snap/tgt and their lifts to histories of "
-                  "interrupted cycles) and no lock-out (crash_no_lockout: from every datastore a successful cycle can leave "
-                  "behind when cut short, the same cycle succeeds again with the same view). PARTIAL with respect to the "
-                  "runtime and to generality: (1) no-lock-out is proved for the repository that was being fetched; for an "
-                  "arbitrary later repository it is enumerated (scenarios RotateSnapRestart etc.), not proved; (2) the "
-                  "model's create is atomic: that the real create (temporary file, fsync, rename) is atomic under process "
-                  "death and failed writes rests on POSIX rename semantics and is exercised, not proved; power loss "
-                  "(un-synced directory entries) is outside the model; that the datastore changes only through logged operations "
-                  "is proved (crash_states_complete via Proofs/ClientCoh.lean), so the list of crash states is complete "
-                  "for the model.",
+                  "interrupted cycles) and no lock-out: from every datastore a successful cycle can leave behind when cut short, "
+                  "the same cycle succeeds again with the same view (crash_no_lockout), and so does ANY later cycle of the same "
+                  "client, against any repository, that is accepted both from the datastore before the interrupted cycle and from "
+                  "the one after it (crash_no_lockout_any_repository, via crash_shape: where every crash state lies between the "
+                  "two, and cycle_unblocked / cycle_rerun: acceptance depends on the datastore only through the clock sample, the "
+                  "recorded root's online keys and whether a stored document blocks). The list of crash states is complete for "
+                  "the model (crash_states_complete). PARTIAL with respect to the runtime: the model's create is atomic: that the "
+                  "real create (temporary file, fsync, rename) is atomic under process death and failed writes rests on POSIX "
+                  "rename semantics and is exercised (fault enumeration), not proved; power loss (un-synced directory entries) is "
+                  "outside the model; an interrupted cycle that would not have succeeded anyway is covered by the protection half "
+                  "and by the enumeration only.",
     "trusted": ["strace 6.1 fault injection (inject=SYSCALL:signal=KILL|error=E:when=K) and its log",
                 "modelled, not verified: the file system (rename replaces atomically; a failed call has no effect)"],
     "assumptions": ["process death or a failed system call, not power loss", "one client process per datastore directory"],
